@@ -219,7 +219,15 @@ def execute(case):
 
 
 def strategy(tier="quick"):
-    return mdcommon.md_case(tier, faults=False, modes=("sync", "sync", "sync", "fut"))
+    def no_orphan_coroutines(case):
+        # collect.flush() is a plain call that drops what its emission returns: a coroutine handed
+        # back by a sink below it is never awaited, so that consumer never runs, let alone finishes
+        if any(nd["k"] == "collect" for nd in case["spec"]["nodes"]):
+            case = dict(case)
+            case["cmodes"] = {k: ("fut" if m == "coro" else m) for k, m in case["cmodes"].items()}
+        return case
+    return mdcommon.md_case(tier, faults=False, modes=("sync", "sync", "sync", "fut", "coro")).map(
+        no_orphan_coroutines)
 
 
 PARTS = [Part("schedules", strategy, execute, quick=1600, thorough=8000)]
